@@ -5,11 +5,16 @@
 //   h3_pattern replay <file>                     cases from a file (the part before " => " of each line is the input)
 //
 // Output, one line per case:   <case> => <observation>
-//   fmt p=x.. tsp=x.. tsn=N time=x.. tid=x.. tname=x.. pid=x.. logger=x.. lvl=x.. lvls=x.. src=x.. fn=x.. tags=x..|- na=-|0|k:x..,x..;… msg=x..
+//   fmt p=x.. tsp=x.. tsn=N time=x.. pre=-|N:x..,N:x..,… tid=x.. tname=x.. pid=x.. logger=x.. lvl=x.. lvls=x.. src=x.. fn=x.. tags=x..|- na=-|0|k:x..,x..;… msg=x..
 //        => line x<hex> | error ctor-unterminated | error ctor-unknown x<name> | error ctor-other | error format
 //   be p=x.. ml=0|1 kind=plain|named|rt msg=x.. file=x.. line=x.. fn=x.. logger=x.. lvl=x.. lvls=x.. src=x.. caller=x..
 //        => ok src=x.. caller=x.. n=K x<stmt>… | lost
 //   (for kind=rt src/caller in the input part are `-`; the observation carries what the sink saw)
+//   fmt: one case = one freshly constructed PatternFormatter. `pre` lists the timestamps of the format() calls the
+//   formatter handles BEFORE the observed call (decoy values for every other attribute), each with the time text the
+//   reference gives for it; `pre=-` means the observed call is the very first one. Absent (older replay files): one
+//   decoy call at tsn+1000000007. The time text of a call is a function of its timestamp alone, whatever came before
+//   (timestamp 0 and repeated timestamps included) — reference: a fresh TimestampFormatter per text.
 // The harness also judges the property itself with an independent reference (direct substitution using fmtquill::format
 // on the single value with the single spec; std::string splitting) and prints `ORACLE <class> …` lines:
 //   brace-literal  : a literal chunk of the pattern contains `{` or `}` and the line is not the direct substitution (F7)
@@ -117,6 +122,9 @@ struct FmtCase
   std::string pattern, tsp{"%H:%M:%S.%Qns"};
   uint64_t tsn{0};
   std::string time; // computed
+  bool pre_given{false};
+  std::vector<uint64_t> pre;          // timestamps of the calls made before the observed one (if pre_given)
+  std::vector<std::string> pre_time;  // computed
   std::string tid, tname, pid, logger, lvl, lvls, src, fn;
   bool has_tags{false};
   std::string tags;
@@ -273,10 +281,29 @@ static std::string na_text(FmtCase const& c)
   return o;
 }
 
+static std::string pre_text(FmtCase const& c)
+{
+  if (c.pre.empty()) { return "-"; }
+  std::string o;
+  for (size_t i = 0; i < c.pre.size(); ++i)
+  {
+    if (i) { o += ","; }
+    o += std::to_string(c.pre[i]) + ":" + hex(c.pre_time[i]);
+  }
+  return o;
+}
+
+// reference text of %(time): a fresh TimestampFormatter for every single text (no state shared with anything)
+static std::string ref_time(std::string const& tsp, uint64_t ts)
+{
+  detail::TimestampFormatter tf{tsp, Timezone::GmtTime};
+  return std::string{tf.format_timestamp(std::chrono::nanoseconds{ts})};
+}
+
 static std::string fmt_case_text(FmtCase const& c)
 {
   std::string o = "fmt p=" + hex(c.pattern) + " tsp=" + hex(c.tsp) + " tsn=" + std::to_string(c.tsn) +
-    " time=" + hex(c.time) + " tid=" + hex(c.tid) + " tname=" + hex(c.tname) + " pid=" + hex(c.pid) +
+    " time=" + hex(c.time) + " pre=" + pre_text(c) + " tid=" + hex(c.tid) + " tname=" + hex(c.tname) + " pid=" + hex(c.pid) +
     " logger=" + hex(c.logger) + " lvl=" + hex(c.lvl) + " lvls=" + hex(c.lvls) + " src=" + hex(c.src) +
     " fn=" + hex(c.fn) + " tags=" + (c.has_tags ? hex(c.tags) : std::string{"-"}) + " na=" + na_text(c) +
     " msg=" + hex(c.msg);
@@ -285,10 +312,19 @@ static std::string fmt_case_text(FmtCase const& c)
 
 static void run_fmt(FmtCase& c)
 {
+  c.time = ref_time(c.tsp, c.tsn);
+  bool const default_decoy = !c.pre_given;
+  if (default_decoy)
   {
-    detail::TimestampFormatter tf{c.tsp, Timezone::GmtTime};
-    c.time = std::string{tf.format_timestamp(std::chrono::nanoseconds{c.tsn})};
+    c.pre = {c.tsn + 1000000007ull};
+    c.pre_given = true;
   }
+  c.pre_time.clear();
+  for (uint64_t t : c.pre) { c.pre_time.push_back(ref_time(c.tsp, t)); }
+  if (c.pre.empty()) { ++g_stats["first_call_observed"]; }
+  if (c.pre.empty() && c.tsn == 0) { ++g_stats["first_call_observed_ts0"]; }
+  if (!c.pre.empty() && c.pre.back() == c.tsn) { ++g_stats["same_ts_as_previous_call"]; }
+  if (!default_decoy && !c.pre.empty() && c.pre.back() > c.tsn) { ++g_stats["ts_lower_than_previous_call"]; }
   std::string obs;
   std::unique_ptr<PatternFormatter> pf;
   try
@@ -316,17 +352,20 @@ static void run_fmt(FmtCase& c)
   {
     MacroMetadata const md{c.src.c_str(), c.fn.c_str(), "{}", c.has_tags ? c.tags.c_str() : nullptr,
                            LogLevel::Info, MacroMetadata::Event::Log};
-    // a first statement with other values: the formatter is reused for every statement of a logger
-    try
+    // earlier statements with other values: the formatter is reused for every statement of a logger
+    for (uint64_t const pre_ts : c.pre)
     {
-      std::string const decoy_src = "/decoy/dir/decoy_file.cc:9";
-      MacroMetadata const dmd{decoy_src.c_str(), "decoy_fn", "{}", "decoy tags", LogLevel::Info, MacroMetadata::Event::Log};
-      std::vector<std::pair<std::string, std::string>> dna{{"dk", "dv"}, {"dk2", "dv2"}};
-      (void)pf->format(c.tsn + 1000000007ull, "decoy-tid", "decoy-thread-name", "decoy-pid", "decoy-logger",
-                       "DECOYLEVEL", "DL", dmd, &dna, "decoy message that is longer than most of the real ones {} %(x)");
-    }
-    catch (std::exception const&)
-    {
+      try
+      {
+        std::string const decoy_src = "/decoy/dir/decoy_file.cc:9";
+        MacroMetadata const dmd{decoy_src.c_str(), "decoy_fn", "{}", "decoy tags", LogLevel::Info, MacroMetadata::Event::Log};
+        std::vector<std::pair<std::string, std::string>> dna{{"dk", "dv"}, {"dk2", "dv2"}};
+        (void)pf->format(pre_ts, "decoy-tid", "decoy-thread-name", "decoy-pid", "decoy-logger",
+                         "DECOYLEVEL", "DL", dmd, &dna, "decoy message that is longer than most of the real ones {} %(x)");
+      }
+      catch (std::exception const&)
+      {
+      }
     }
     try
     {
@@ -859,10 +898,83 @@ static void gen_malformed_pattern(Rng& r, FmtCase& c)
   }
 }
 
-static void gen_fmt_cases(Rng& r, unsigned n)
+// One formatter life seen call by call: a timestamp sequence s_0 … s_{n-1} (0 first, repeated, decreasing, …) through a
+// pattern that has %(time); case k = fresh formatter, calls at s_0 … s_{k-1} (decoy values), observed call at s_k.
+static void gen_time_seq_group(Rng& r)
+{
+  FmtCase c;
+  gen_common(r, c);
+  // pattern: %(time) with or without a spec, at a random position among 0..3 other fields
+  {
+    std::vector<int> others;
+    for (int a = 1; a < 16; ++a) { others.push_back(a); }
+    for (size_t i = others.size() - 1; i > 0; --i) { std::swap(others[i], others[r.below(static_cast<unsigned>(i + 1))]); }
+    unsigned const k = r.below(4);
+    unsigned const time_at = r.below(k + 1);
+    std::string p;
+    for (unsigned i = 0; i <= k; ++i)
+    {
+      p += gen_literal(r);
+      if (i == time_at)
+      {
+        std::string f = "%(time";
+        unsigned const m = r.below(10);
+        if (m < 3) { ++g_stats["timeseq_time_without_spec"]; }
+        else if (m < 6)
+        {
+          f += std::string{":"} + "<>^"[r.below(3)] + std::to_string(10 + r.below(20));
+          ++g_stats["timeseq_time_with_width"];
+        }
+        else
+        {
+          f += ":" + gen_spec(r, 18);
+          ++g_stats["timeseq_time_with_spec"];
+        }
+        p += f + ")" + gen_literal(r);
+      }
+      if (i < k) { p += gen_field(r, c, others[i], true); }
+    }
+    c.pattern = p;
+  }
+  uint64_t const t = c.tsn;
+  uint64_t const t2 = t + (r.chance(50) ? 1 + r.below(999) : 1000000000ull * (1 + r.below(100000)));
+  uint64_t const sec = 1000000000ull;
+  std::vector<uint64_t> seq;
+  unsigned const fam = r.below(12);
+  switch (fam)
+  {
+  case 0: seq = {0}; break;
+  case 1: seq = {0, 0}; break;
+  case 2: seq = {0, 0, t, 0}; break;
+  case 3: seq = {t, t, t2}; break;
+  case 4: seq = {t, t}; break;
+  case 5: seq = {t2, t, 0}; break;                       // decreasing
+  case 6: seq = {0, 1, 0}; break;                        // same second, other nanosecond
+  case 7: seq = {t, 0, t}; break;
+  case 8: seq = {sec - 1, 0, sec}; break;                // around the first second of the epoch
+  case 9: seq = {0, t, t, 0, 0}; break;
+  case 10: seq = {3661 * sec, 0, 0}; break;
+  default: seq = {t2, t2, t, t}; break;                  // repeated and decreasing
+  }
+  ++g_stats["timeseq_groups"];
+  ++g_stats["timeseq_family_" + std::to_string(fam)];
+  for (size_t k = 0; k < seq.size(); ++k)
+  {
+    FmtCase k_case = c;
+    k_case.pre_given = true;
+    k_case.pre.assign(seq.begin(), seq.begin() + static_cast<long>(k));
+    k_case.tsn = seq[k];
+    run_fmt(k_case);
+    ++g_stats["timeseq_cases"];
+  }
+}
+
+static void gen_fmt_cases(Rng& r, Rng& r2, unsigned n)
 {
   for (unsigned i = 0; i < n; ++i)
   {
+    // every 25th case: a timestamp-sequence group from its own stream (the main stream is not disturbed)
+    if (i % 25 == 24) { gen_time_seq_group(r2); }
     FmtCase c;
     gen_common(r, c);
     unsigned const k = r.below(100);
@@ -1034,6 +1146,20 @@ static int replay(char const* path)
       c.pattern = get_hex(kv, "p");
       if (kv.count("tsp")) { c.tsp = get_hex(kv, "tsp"); }
       if (kv.count("tsn")) { c.tsn = std::stoull(kv["tsn"]); }
+      if (kv.count("pre"))
+      {
+        // "-" = no earlier call; else N:x..,N:x.. (the texts are recomputed)
+        c.pre_given = true;
+        if (kv["pre"] != "-")
+        {
+          std::istringstream ps(kv["pre"]);
+          std::string item;
+          while (std::getline(ps, item, ','))
+          {
+            if (!item.empty() && item[0] >= '0' && item[0] <= '9') { c.pre.push_back(std::stoull(item.substr(0, item.find(':')))); }
+          }
+        }
+      }
       c.tid = get_hex(kv, "tid");
       c.tname = get_hex(kv, "tname");
       c.pid = get_hex(kv, "pid");
@@ -1096,7 +1222,8 @@ int main(int argc, char** argv)
     unsigned const nbe = static_cast<unsigned>(std::stoul(argv[4]));
     bool const exh = argc >= 6 && std::string{argv[5]} == "exh";
     Rng rng(seed);
-    gen_fmt_cases(rng, nfmt);
+    Rng rng2(seed * 0x2545F4914F6CDD1Dull + 0x74696d65ull);
+    gen_fmt_cases(rng, rng2, nfmt);
     if (exh) { gen_exhaustive_subsets(rng); }
     gen_be_cases(rng, nbe);
     print_stats();
